@@ -3,8 +3,8 @@
    the dialect semantics of Model/C01Sql.v (only SQLite executes in this sandbox; PostgreSQL and MySQL are documentation
    models).  [safe d] is the complement of the recorded per-dialect defects (Findings/C01.v, Findings/C02.v). *)
 Require Import PonyV.Base.PyBase PonyV.Model.C01Expr PonyV.Model.C01Sql PonyV.Model.C01Translate PonyV.Model.C01Safe
-               PonyV.Model.C01Eqb PonyV.Model.C01Query PonyV.Model.C01Join PonyV.Model.C01Coll PonyV.Model.C01Aggr PonyV.Model.C01Len
-               PonyV.Proofs.C01Rows PonyV.Proofs.C01Join PonyV.Proofs.C02Agree PonyV.Proofs.C02Join PonyV.Proofs.C01Coll PonyV.Proofs.C02Coll PonyV.Proofs.C01Aggr PonyV.Proofs.C02Aggr PonyV.Proofs.C01Len PonyV.Proofs.C02Len.
+               PonyV.Model.C01Eqb PonyV.Model.C01Query PonyV.Model.C01Join PonyV.Model.C01Coll PonyV.Model.C01Aggr PonyV.Model.C01Len PonyV.Model.C01Form
+               PonyV.Proofs.C01Rows PonyV.Proofs.C01Join PonyV.Proofs.C02Agree PonyV.Proofs.C02Join PonyV.Proofs.C01Coll PonyV.Proofs.C02Coll PonyV.Proofs.C01Aggr PonyV.Proofs.C02Aggr PonyV.Proofs.C01Len PonyV.Proofs.C02Len PonyV.Proofs.C01Form PonyV.Proofs.C02Form.
 
 (* a selected expression decodes to the same Python value on any two dialects *)
 Theorem C02_agree_project_except_known : forall d1 d2, modelled d1 = true -> modelled d2 = true ->
@@ -60,11 +60,23 @@ Theorem C02_agree_collection_rows_except_known : forall d1 d2, modelled d1 = tru
 Proof. exact agree_coll_rows. Qed.
 Print Assumptions C02_agree_collection_rows_except_known.
 
+(* subquery conditions under and / or / not (Model/C01Form.v) *)
+Theorem C02_agree_collection_formula_rows_except_known : forall d1 d2, modelled d1 = true -> modelled d2 = true ->
+  forall params db distinct subs filt proj vt xs1 c1 q1 xs2 c2 q2,
+  pk_ok (tP db) = true ->
+  forallb subq_typed subs = true -> boolty filt = true -> ty_of proj = Some (TV vt) ->
+  tr_subqs d1 subs = Some xs1 -> tr_filter d1 filt = Some c1 -> tr_project d1 proj = Some q1 ->
+  tr_subqs d2 subs = Some xs2 -> tr_filter d2 filt = Some c2 -> tr_project d2 proj = Some q2 ->
+  Forall (fun g => fgroup_ok d1 params db subs filt proj g /\ fgroup_ok d2 params db subs filt proj g) (tG db) ->
+  map (dec (TV vt)) (sql_form_rows d1 params db distinct xs1 c1 q1) = map (dec (TV vt)) (sql_form_rows d2 params db distinct xs2 c2 q2).
+Proof. exact agree_form_rows. Qed.
+Print Assumptions C02_agree_collection_formula_rows_except_known.
+
 (* len(g.members) / count(g.members) in a condition (Model/C01Len.v: LEFT JOIN + GROUP BY + HAVING) *)
 Theorem C02_agree_collection_len_rows_except_known : forall d1 d2, modelled d1 = true -> modelled d2 = true ->
   forall params db ws hs proj vt w1 h1 q1 w2 h2 q2,
   pk_ok (tP db) = true -> keys_ok (map (fun g : row => g 0%nat) (tG db)) = true ->
-  forallb boolty (ws ++ hs) = true -> forallb g_only ws = true -> forallb (fun e => negb (loses_mark e)) hs = true -> ty_of proj = Some (TV vt) ->
+  forallb boolty (ws ++ hs) = true -> forallb g_only ws = true -> ty_of proj = Some (TV vt) ->
   tr_len d1 ws hs = Some (sub_join, w1, h1) -> tr_project d1 proj = Some q1 ->
   tr_len d2 ws hs = Some (sub_join, w2, h2) -> tr_project d2 proj = Some q2 ->
   Forall (fun g => len_ok d1 params db ws hs proj g /\ len_ok d2 params db ws hs proj g) (tG db) ->
